@@ -51,6 +51,9 @@ def run_case(rs, ctx):
     labels = gen.pick(rs, ["int", "str", "float"])
     n_arms = int(rs.integers(2, 5))
     cfgA = gen.gen_cfg(rs, "ts", p, labels=labels, n_arms=n_arms, binarizer=b0, seed=int(rs.integers(10 ** 6)))
+    long_batches = p == "none" and ctx.index % 48 == 0  # a few cases with very long training batches and several jobs
+    if long_batches:
+        cfgA["n_jobs"], cfgA["backend"] = int(gen.pick(rs, [2, 3, -1])), None
     cfgB = copy.deepcopy(cfgA)
     cfgB["lp"]["binarizer"] = None
     nf = int(gen.pick(rs, [1, 2, 3]))
@@ -65,7 +68,8 @@ def run_case(rs, ctx):
     replaced = False
     for step, k in enumerate(plan):
         if k in ("fit", "partial_fit"):
-            op = gen.gen_ops(rs, cfgA, sh, 1, [k], train_rows=(4, 12) if k == "fit" else (1, 8))[0]
+            op = gen.gen_ops(rs, cfgA, sh, 1, [k], train_rows=((4, 12) if k == "fit" else (1, 8)) if not long_batches
+                             else (24000, 31000))[0]
             if few_values:
                 op["r"] = [float(int(v) % 5) for v in op["r"]]  # rating-like rewards: the same (decision, reward) pairs recur
             opB = dict(op, r=conv(binarizers.ALL[cur], op["d"], op["r"]))
